@@ -42,7 +42,7 @@ TRUSTED_BASE = [
 ]
 MANIFEST = {
     "technique": "Lean 4 proof (hand scanners that consume characters + induction that arithmetic offsets equal consumed lengths; totality of the error-context search) + differential correspondence match by match + direct slicing oracle on generated programs and malformed sources",
-    "text": "token_span_correct / scan_tiles: for every expression string and every base offset each token's start index, computed by arithmetic as in tokenize(), is where the token's text sits in the source; same for the liquid-tag line scanner (liquid_tag_offsets) and, at piece level, for tag names / expressions / output statements of the template lexer under any delimiters (template_span_correct). error_context_total: for every text and 0 <= i < len the search returns the line containing i with the right column, and splitlines pieces concatenate to the text; detailed_message_total: a token with an index inside its source always formats. negative_index_formats_bare: a token with index -1 (the old shared EOF sentinel) formats without position - fixed in the tree, stream errors now finds every parse error located.",
+    "text": "token_span_correct / scan_tiles: for every expression string and every base offset each token's start index, computed by arithmetic as in tokenize(), is where the token's text sits in the source; same for the liquid-tag line scanner (liquid_tag_offsets) and, at piece level, for tag names / expressions / output statements of the template lexer under any delimiters (template_span_correct), and for the block-comment token, whose value is the source text at its start index (comment_token_span_correct). error_context_total: for every text and 0 <= i < len the search returns the line containing i with the right column, and splitlines pieces concatenate to the text; detailed_message_total: a token with an index inside its source always formats. negative_index_formats_bare: a token with index -1 (the old shared EOF sentinel) formats without position - fixed in the tree, stream errors now finds every parse error located.",
     "note": "Trusted: Lean kernel, the hand scanners (validated match by match against `re`), emitter for the rule tables, harness. Parser and analysis code that carries start_index from tokens to Spans is covered by the direct oracle only. Character classes above U+00FF are a generated table of the interpreter's Unicode database, compared with `re` on every code point.",
 }
 ASSUMPTIONS = [
